@@ -4,7 +4,7 @@
 P="$1"; shift
 PROPS="$*"
 rm -rf /tmp/tryseed-verif; mkdir -p /tmp/tryseed-verif; cp /verif/known_findings.txt /tmp/tryseed-verif/; cd /repo || exit 2
-git diff --quiet || { echo "/repo dirty"; exit 2; }
+[ -z "$(git status --porcelain)" ] || { echo "/repo dirty"; exit 2; }
 git apply "$P" || { echo "patch does not apply"; exit 2; }
 if [ -z "$PROPS" ]; then
   /verif/bin/resverif -all -verif /tmp/tryseed-verif 2>&1 | awk '
@@ -18,4 +18,4 @@ else
     if echo "$out" | grep -q '^VIOLATION'; then echo "== $p: CAUGHT"; echo "$out" | grep -E '^  (violated|unresolved|undecided)' | cut -c1-260; else echo "== $p: silent"; fi
   done
 fi
-git checkout -- . ; git status --short | head
+git checkout -- . ; git clean -fdq ; git status --short | head
